@@ -609,3 +609,22 @@ def _cr(guard="Ok(count) if count == len"):
 m("x7-check-range-matches-any-ok", "C02", GM, _CR_ORIG, _cr("Ok(_)"), "R2.3.check_range")
 m("x7-check-range-matches-le", "C02", GM, _CR_ORIG, _cr("Ok(count) if count <= len"), "R2.3.check_range")
 m("x7-check-range-matches-nonzero", "C02", GM, _CR_ORIG, _cr("Ok(count) if count == len && len != 0"), "R2.3.check_range")
+
+# element loops with the count read from the iterator (ExactSizeIterator::len of the consumed chain; accepted since the corrected twins
+# of round 8), each with one defect
+def _elt_from_len(before_take=False, brk=""):
+    chain = "buf.iter().enumerate()" if before_take else "buf.iter().enumerate().take(self.len())"
+    loop = "elements.take(self.len())" if before_take else "elements"
+    return f"""            let dst = guard.as_ptr() as *mut Packed<T>;
+            let elements = {chain};
+            let copied = elements.len();
+
+            for (i, &v) in {loop} {{
+                {brk}
+                // SAFETY: test mutant scaffold
+                unsafe {{ write_volatile(dst.add(i), Packed::<T>(v)) }};
+            }}
+
+            self.bitmap.mark_dirty(0, copied * self.element_size());"""
+m("x7-len-mark-before-take", "C05,C16", VM, _ELT_FROM_ORIG, _elt_from_len(before_take=True), "?")
+m("x7-len-mark-loop-breaks", "C05,C16", VM, _ELT_FROM_ORIG, _elt_from_len(brk="if i >= 3 { break; }"), "?")
